@@ -178,11 +178,14 @@ def check_construct(case, ev):
             ("boolean_variable_indices", lambda: obj.boolean_variable_indices, exp_b),
             ("integer_variable_indices", lambda: obj.integer_variable_indices, exp_i),
             ("variable_indices(Dtype.BOOL)", lambda: obj.variable_indices(puan.Dtype.BOOL), exp_b),
-            ("variable_indices(Dtype.INT)", lambda: obj.variable_indices(puan.Dtype.INT), exp_i)):
+            ("variable_indices(Dtype.INT)", lambda: obj.variable_indices(puan.Dtype.INT), exp_i),
+            # the documented plain-string forms ('"bool" gives puan.Dtype.BOOL'; Dtype is a str enumeration)
+            ("variable_indices('bool')", lambda: obj.variable_indices("bool"), exp_b),
+            ("variable_indices('int')", lambda: obj.variable_indices("int"), exp_i)):
         r = call(getter, what=name)
         r = [int(x) for x in np.asarray(r).reshape(-1).tolist()]
         if r != exp:
-            raise Violation(f"{name}: got {r}, expected {exp} (columns whose bounds are{'' if 'BOOL' in name or 'boolean' in name else ' not'} "
+            raise Violation(f"{name}: got {r}, expected {exp} (columns whose bounds are{'' if 'BOOL' in name or 'bool' in name else ' not'} "
                             f"(0,1)); variables {cols}")
     known = {_key(c[0]) for c in cols}
     n_unknown = sum(1 for k, _ in case["vals"] if _key(k) not in known)
@@ -242,6 +245,13 @@ def check_from_list(case, ev):
             if nested:
                 arg = [tuple(r) for r in lst]
                 name = name + " (tuple rows)"
+        if case.get("tuple_ids") and cls_ is pnd.integer_ndarray and not case.get("ctx_forms"):
+            # ids that are tuples (any hashable is an id; for integer_ndarray.from_list only a LIST in first place means
+            # "nested"): every id x becomes the pair (x, 1)
+            tup = lambda x: (x, 1)
+            arg = [[tup(x) for x in r_] for r_ in lst] if nested else [tup(x) for x in lst]
+            ctx_arg = [tup(x) for x in ctx]
+            name = name + " (tuple ids)"
         r = call(cls_.from_list, arg, ctx_arg, what=name)
         got_shape = tuple(int(x) for x in np.shape(r))
         got = np.asarray(r).tolist()
@@ -256,7 +266,8 @@ def check_from_list(case, ev):
     listed = any(any(row) for row in exp_b)
     unlisted = any(not all(row) for row in exp_b)
     reordered = any([v for v in row if v] != sorted(v for v in row if v) for row in exp_i)
-    cls = ["nested" if nested else "flat"] + (["ids_in_variable_objects"] if case.get("ctx_forms") else [])
+    cls = ["nested" if nested else "flat"] + (["ids_in_variable_objects"] if case.get("ctx_forms") else []) + \
+        (["ids:tuple(integer_ndarray)"] if case.get("tuple_ids") and not case.get("ctx_forms") else [])
     if unknown:
         cls.append("unknown_id")
     if reordered:
@@ -350,11 +361,21 @@ def check_linalg(case, ev):
         raise Violation(f"to_linalg: result {res!r} is not a pair (A, b); matrix {M}")
     check_A(res[0], "to_linalg()[0]")
     check_b(res[1], "to_linalg()[1]")
+    if case.get("stack"):
+        # a STACK of systems over the same variables (rank 3): A is every system without its first column, same variables
+        # (b of a stack comes back with the axes swapped on the unchanged code - not judged, see DESIGN section 9)
+        Ms = [[list(r) for r in M]] + [[[int(x) + d_ * (1 + (i_ + j_) % 3) for j_, x in enumerate(r)] for i_, r in enumerate(M)] for d_ in case["stack"]]
+        P3 = call(pnd.ge_polyhedron, Ms, variables=[puan.variable.support_vector_variable()] + _variables(puan, vars_),
+                  index=[puan.variable(_id(i), (0, 1)) for i in index], what="ge_polyhedron construction (stack)")
+        A3 = call(lambda: P3.A, what="A of a stack of systems")
+        if np.asarray(A3).tolist() != [[r[1:] for r in M_] for M_ in Ms]:
+            raise Violation(f"A of a stack of systems: {np.asarray(A3).tolist()} is not every system without its first column; stack {Ms}")
+        _check_vars(getattr(A3, "variables", []), vars_, "A.variables of a stack (expected polyhedron.variables[1:])", case)
     # the polyhedron itself is left untouched
     if np.asarray(P).tolist() != [[int(x) for x in r] for r in M]:
         raise Violation(f"to_linalg changed the polyhedron: {np.asarray(P).tolist()} != {M}")
     nonbool = any((v[1], v[2]) != (0, 1) for v in vars_)
-    cls = [f"rows={min(n_rows, 3)}{'+' if n_rows >= 3 else ''}", "alias" if case.get("alias") else "method"]
+    cls = [f"rows={min(n_rows, 3)}{'+' if n_rows >= 3 else ''}", "alias" if case.get("alias") else "method"] + (["stack_rank3"] if case.get("stack") else [])
     for kind, t in (("str", str), ("int", int), ("tuple", list)):
         if any(isinstance(c[0], t) for c in vars_):
             cls.append(f"ids:{kind}")
@@ -479,6 +500,8 @@ def from_list_case(draw):
     else:
         lst = one()
     case = {"context": ctx, "lst": lst}
+    if draw(st.integers(0, 4)) == 0:
+        case["tuple_ids"] = True
     if draw(st.integers(0, 3)) == 0:
         # ids handed over inside puan.variable objects (polyhedron.variables as context, variables picked from another
         # array as list): 0 = the raw id, 1 = a boolean variable with that id, 2 = a variable with that id and other bounds
@@ -511,6 +534,8 @@ def linalg_case(draw):
     case = {"m": M, "vars": vars_, "index": index}
     if draw(st.integers(0, 2)) == 0:
         case["alias"] = True
+    if draw(st.integers(0, 3)) == 0:
+        case["stack"] = draw(st.lists(st.integers(-3, 3), min_size=1, max_size=3))
     return case
 
 
